@@ -56,6 +56,7 @@ func c03Alphabet() []c03Query {
 	if c03AndNot {
 		return []c03Query{q(a), q(b), q(c), q(model.Not(a)), q(model.And(a, b)),
 			q(model.And(a, model.Not(b))), q(model.And(c, model.Not(a), model.Not(b))), q(model.Or(b, model.Not(c))),
+			q(model.Not(model.And(a, b))), q(model.Not(model.Or(a, b))), q(model.Or(model.Not(a), model.Not(b))),
 			q(model.And(a, b, model.And())), // an operand-less AND nested in an AND (compared with a fresh uncached index)
 			{Expr: model.And(a, model.Not(c)), GroupBy: []string{"b"}}}
 	}
@@ -123,15 +124,23 @@ func newC03World(ctx *rt.Ctx, cfg c03Cfg) *c03World {
 		rt.Harnessf("build: %v", err)
 	}
 	w := &c03World{cfg: cfg, sw: &swapCache{}, path: p, data: model.FromRows(rows)}
-	w.idx, err = ix.Open(p, cfg.Preload, w.sw)
+	// "none" means really none: the index is opened without any cache option (the built-in no-op cache), not with a
+	// wrapper that happens to hold nothing
+	var cache updog.Cache
+	if cfg.Cache != "none" {
+		cache = w.sw
+	}
+	w.idx, err = ix.Open(p, cfg.Preload, cache)
 	if err != nil {
 		rt.Harnessf("open: %v", err)
 	}
 	// measure a leaf bitmap to place the small capacities
 	res := &capture{}
-	w.sw.inner = res
-	w.idx.Execute(&updog.Query{Expr: model.Eq("a", "1").Updog()})
-	w.sw.inner = nil
+	if cfg.Cache != "none" {
+		w.sw.inner = res
+		w.idx.Execute(&updog.Query{Expr: model.Eq("a", "1").Updog()})
+		w.sw.inner = nil
+	}
 	var leaf uint64 = 100
 	if res.last != nil {
 		leaf = res.last.GetSizeInBytes()
